@@ -1,8 +1,136 @@
+import json
+import os
+import time
+import traceback
+
 import common, p_vxbase, cli_cfg
+import ctl as ctlmod
+import scratch as sc
 
 ASSUME = ["select! start indices are covered through the listed seeds (an enumerated, not provably complete, set); the engine reports how many scripts' stored bytes differed between seeds",
           "the two compressor OS threads run free; each stream's requests are FIFO on one channel and files are not shared",
           "a failed shutdown send (C06's subject) is not judged here"]
+
+# ------------------------------------------------------------------------------------------ orderings
+# Real `run`, controlled children, and the compressor threads under the controller's hand: every
+# iteration of a compressor thread's loop is a guarded point (`compressor.loop:<x>`). A group whose
+# members write a little and exit (one of them possibly with a failure) is run while the compressor
+# threads are kept behind the rest of the run by a chosen amount.
+
+POLICIES = ["free", "behind-until-joined", "behind-until-shutdown", "one-request-behind"]
+
+
+def order_task(desc):
+    n, fail, policy, tail = desc["n"], desc["fail"], desc["policy"], desc.get("tail", False)
+    ts = [{"path": "g%d" % i} for i in range(n)] + [{"path": "post", "uses": ["g%d" % i for i in range(n)]}]
+    s = sc.Scratch("c08ord")
+    try:
+        r = sc.Repo(s, "r", ts, commands={t["path"]: {"build": "x"} for t in ts}, init_git=False)
+        c = ctlmod.Controller(s)
+        try:
+            state = {"joined": False, "shutdown": False, "held": []}
+
+            def on_hit(h):
+                if h.name.startswith("group.post_join"):
+                    state["joined"] = True
+                    return b"c"
+                if h.name.startswith("group.pre_shutdown"):
+                    state["shutdown"] = True
+                    return b"c"
+                if h.name.startswith("compressor.loop"):
+                    if policy == "free":
+                        return b"c"
+                    if policy == "behind-until-joined" and state["joined"]:
+                        return b"c"
+                    if policy == "behind-until-shutdown" and state["shutdown"]:
+                        return b"c"
+                    state["held"].append(h)
+                    h.t_held = time.time()
+                    return None
+                return b"c"
+
+            def tick():
+                for h in list(state["held"]):
+                    go = (policy == "behind-until-joined" and state["joined"]) or (policy == "behind-until-shutdown" and state["shutdown"]) \
+                        or (policy == "one-request-behind" and time.time() - h.t_held > 0.35) or time.time() - h.t_held > 8
+                    if go and h.state == "held":
+                        state["held"].remove(h)
+                        c.resume(h)
+            c.auto_points = on_hit
+            c.tick_hook = tick
+            env = s.env(c.env(points=["compressor.loop", "group.post_join", "group.pre_shutdown"]))
+            p = c.spawn("run", [common.MONORAIL, "run", "-c", "build"], r.dir, env)
+            c.wait(lambda: len(c.waiting()) >= n or p.done(), 15)
+            grp = sorted(c.waiting(), key=lambda ch: ch.cwd)
+            if len(grp) < n:
+                return {"engine_error": "group did not arrive (exit %s %s)" % (p.code, p.err[:200])}
+            want = {}
+            # members that end well first, each after two bursts a flush period apart
+            order = [ch for i, ch in enumerate(grp) if i != fail] + ([grp[fail]] if fail is not None else [])
+            for ch in order:
+                t = os.path.relpath(ch.cwd, r.dir)
+                o1, o2 = ("first of %s\n" % t).encode(), ("second of %s\n" % t).encode() + (b"tail without newline" if tail else b"")
+                e1 = ("stderr of %s\n" % t).encode()
+                c.send(ch, ["out " + o1.hex(), "err " + e1.hex()])
+                c.wait_acks(ch, 10)
+                c.wait(lambda: False, 0.6)
+                c.send(ch, ["out " + o2.hex()])
+                c.wait_acks(ch, 10)
+                want[("stdout.zst", t)] = o1 + o2
+                want[("stderr.zst", t)] = e1
+                is_fail = fail is not None and ch is grp[fail]
+                if is_fail:
+                    c.wait(lambda: False, 0.4)   # everything the others wrote has long been read
+                c.release(ch, 1 if is_fail else 0)
+                c.wait(lambda: ch.state == "gone" or p.done(), 10)
+            t_end = time.time() + 30
+            while not p.done() and time.time() < t_end:
+                c.pump(0.01)
+                for ch in list(c.waiting()):
+                    t = os.path.relpath(ch.cwd, r.dir)
+                    o = ("only of %s\n" % t).encode()
+                    want[("stdout.zst", t)] = o
+                    want[("stderr.zst", t)] = b""
+                    c.release(ch, 0, ["out " + o.hex()])
+            viol = []
+            if not p.done():
+                c.kill(p, group=True)
+                c.wait(lambda: p.done(), 5)
+                viol.append(("run-hung", "policy %s: the run did not finish" % policy))
+            doc = sc.Result(p.code, p.out, p.err).json()
+            if doc is None:
+                viol.append(("no-result-document", "policy %s: exit %s %s" % (policy, p.code, p.err[:200])))
+            else:
+                for (f, t), w in sorted(want.items()):
+                    h = doc["out"]["run"]["targets"].get(t)
+                    fp = os.path.join(doc["out"]["run"]["path"], "build", h or "?", f)
+                    try:
+                        got = sc.zstd_cat(fp)
+                    except Exception as e:
+                        viol.append(("log-undecodable", "policy %s: %s of %s: %s" % (policy, f, t, str(e)[:120])))
+                        continue
+                    if got != w:
+                        viol.append(("bytes-lost-behind-compressor", "policy %s, failing member %s: %s of %s (ran to completion) holds %r, it wrote %r" % (policy, fail, f, t, got[:60], w[:60])))
+            return {"evaluations": 1, "hits": len(c.hits),
+                    "violations": [{"sig": sig, "detail": d, "rank": 20_000_000_000 + n, "case": {"c08_order": desc}} for sig, d in viol]}
+        finally:
+            c.close()
+    except common.EngineError as e:
+        return {"engine_error": str(e)}
+    except Exception:
+        return {"engine_error": traceback.format_exc()[-1500:]}
+    finally:
+        s.cleanup()
+
+
+def order_scenarios(tier):
+    out = []
+    for n in ((2,) if tier == "quick" else (2, 3)):
+        for fail in [None] + list(range(n)):
+            for policy in POLICIES:
+                out.append({"n": n, "fail": fail, "policy": policy, "tail": fail == 0})
+    return out
+
 
 def run(prop, tier):
     r = common.run_vx("c08", tier)
@@ -10,7 +138,34 @@ def run(prop, tier):
     r["states"] = max(1, r.get("extra", {}).get("stored_outcome_hashes_set_count", 1))
     r["transitions"] = r.get("evaluations", 1)
     cli_cfg.merge(r, prop, tier)
+    res = common.pmap(order_task, order_scenarios(tier))
+    errs = [x["engine_error"] for x in res if "engine_error" in x]
+    if errs:
+        raise common.EngineError("C08 orderings: " + "; ".join(errs[:2]))
+    ov = [v for x in res for v in x["violations"]]
+    r["evaluations"] = r.get("evaluations", 0) + len(res)
+    r["transitions"] = r.get("transitions", 0) + sum(x["hits"] for x in res)
+    r["ordering_scenarios"] = len(res)
+    r.setdefault("violations", []).extend(ov[:20])
+    r["violation_count"] = r.get("violation_count", 0) + len(ov)
+    by = r.setdefault("by_sig", {})
+    for v in ov:
+        by[v["sig"]] = by.get(v["sig"], 0) + 1
+    r["rule"] = r.get("rule", "") + "; plus %d ordering scenarios on the real run: a group of 2 (thorough 3) controlled members writing two bursts a flush period apart and exiting (none / each one failing last), with the compressor threads' loop iterations (guarded point compressor.loop) free, held until the group is joined, held until the first shutdown request is about to be sent, or one request behind (0.35 s per iteration): every member ran to completion, so every stored log must equal what it wrote" % len(res)
     return r, ASSUME
 
 def replay(prop, path):
+    body = json.load(open(path))
+    if "c08_order" in body.get("case", {}):
+        x = order_task(body["case"]["c08_order"])
+        if "engine_error" in x:
+            print("ENGINE:", x["engine_error"])
+            return 2
+        for v in x["violations"]:
+            print("REPLAY property=%s still violates: [%s] %s" % (prop, v["sig"], v["detail"][:300]))
+        if x["violations"]:
+            print("VIOLATION property=%s replay=%s" % (prop, path))
+            return 1
+        print("REPLAY property=%s: case passes on the current tree" % prop)
+        return 0
     return p_vxbase.replay(prop, path, "c08")
